@@ -5,7 +5,10 @@
    `Gen/Int64.lean`, which the translator rewrites from the source on every run: they are proof obligations on the
    current tree (they do not check on a tree where a signed `/` or `%` lacks the INT64_MIN / -1 test, where the edge
    comparison of the compare functions is exclusive, or where a method table row / the dispatch order changed).
-   IEEE arithmetic on two plain numbers is not the subject of any theorem (tested against Lean `Float` and Python). -/
+   IEEE arithmetic on two plain numbers: the model's executable instance `Ieee.ieee` (exact rational result rounded once), proved
+   against the mathematical rounding `rneQ`; on integer-valued doubles the handlers are exact without any representability
+   hypothesis (`IeeeInt.lean`); math.c's gcd / lcm / floor / ceil / trunc / round / abs (`MathFns.lean`, `MathQ.lean`); boot.janet's
+   zero? pos? neg? one? even? odd? (`Preds.lean`, `PredsQ.lean`). -/
 import JanetModel.Int64.Lemmas
 import JanetModel.Int64.LemmasN
 import JanetModel.Int64.LemmasQ
@@ -13,6 +16,7 @@ import JanetModel.Int64.LemmasC
 import JanetModel.Int64.IeeeQ
 import JanetModel.Int64.IeeeInt
 import JanetModel.Int64.MathQ
+import JanetModel.Int64.PredsQ
 namespace JanetModel.Props.C14
 open JanetModel.Int64 JanetModel.Gen.Int64
 
@@ -808,6 +812,47 @@ example : (Val.s64 (-3)).numeric ∧ (Val.u64 18446744073709551615).numeric ∧ 
   · simp [Val.ext?, hi, Dbl.ext?]
   · rintro ⟨⟨q, h⟩, _⟩
     simp [Val.ext?, hn, Dbl.ext?] at h
+
+/-- ★ boot.janet's `zero?`, `pos?`, `neg?`, `one?` (`(= (compare x 0) 0)`, ... — table `polyPreds` regenerated from the current
+    boot.janet) on any numeric value — a number other than NaN (±inf included), an int/s64, an int/u64: true iff the **mathematical
+    value** is = 0, > 0, < 0, = 1 (for any `NumOps`: no floating-point arithmetic is involved) -/
+theorem poly_predicates_correct (N : NumOps) (x : Val) (vx : ExtQ) (hx : x.ext? = some vx) (wx : x.wf) :
+    polyPred cfgGen N "zero?" x = .ok (.bool (decide (cmpExt vx (.fin 0) = 0))) ∧
+    polyPred cfgGen N "pos?" x = .ok (.bool (decide (cmpExt vx (.fin 0) = 1))) ∧
+    polyPred cfgGen N "neg?" x = .ok (.bool (decide (cmpExt vx (.fin 0) = -1))) ∧
+    polyPred cfgGen N "one?" x = .ok (.bool (decide (cmpExt vx (.fin 1) = 0))) := by
+  have h := fun name k R hrow hk hR =>
+    polyPred_cmp cfgGen (by decide) (by decide) (by decide) N name k R hrow hk hR x vx hx wx
+  refine ⟨?_, ?_, ?_, ?_⟩
+  · simpa using h "zero?" 0 0 (by decide) (by decide) (by decide)
+  · simpa using h "pos?" 0 1 (by decide) (by decide) (by decide)
+  · simpa using h "neg?" 0 (-1) (by decide) (by decide) (by decide)
+  · simpa using h "one?" 1 0 (by decide) (by decide) (by decide)
+
+open JanetModel.Int64.Ieee in
+/-- ★ `even?` / `odd?` (`(= 0 (compare 0 (mod x 2)))`, `(= 0 (compare 1 (mod x 2)))`) on the current tree: for **every** int/s64 and
+    int/u64, and for every integer-valued number of magnitude ≤ 2^53 (IEEE instance): true iff x is even / odd.
+    (A non-integer number goes through the IEEE formula of `mod`: `(odd? -0.9999999999999999)` is true — 2 + x rounds to 1.) -/
+theorem parity_predicates_correct :
+    (∀ N v, Kind.s64.inRange v → polyPred cfgGen N "even?" (.s64 v) = .ok (.bool (decide (v % 2 = 0))) ∧
+                                  polyPred cfgGen N "odd?" (.s64 v) = .ok (.bool (decide (v % 2 = 1)))) ∧
+    (∀ N v, Kind.u64.inRange v → polyPred cfgGen N "even?" (.u64 v) = .ok (.bool (decide (v % 2 = 0))) ∧
+                                  polyPred cfgGen N "odd?" (.u64 v) = .ok (.bool (decide (v % 2 = 1)))) ∧
+    (∀ a z, IntVal a z → |z| ≤ 9007199254740992 →
+      polyPred cfgGen ieee "even?" (.num a) = .ok (.bool (decide (z % 2 = 0))) ∧
+      polyPred cfgGen ieee "odd?" (.num a) = .ok (.bool (decide (z % 2 = 1)))) := by
+  have e := polyPred_parity "even?" 0 (by decide) (Or.inl rfl)
+  have o := polyPred_parity "odd?" 1 (by decide) (Or.inr rfl)
+  exact ⟨fun N v hv => ⟨e.1 N v hv, o.1 N v hv⟩, fun N v hv => ⟨e.2.1 N v hv, o.2.1 N v hv⟩, fun a z ha hz => ⟨e.2.2 a z ha hz, o.2.2 a z ha hz⟩⟩
+
+/-- the six predicates of the current boot.janet are the ones the two theorems cover -/
+theorem poly_predicates_table :
+    polyPreds = [("zero?", "cmp", 0, 0), ("pos?", "cmp", 0, 1), ("neg?", "cmp", 0, -1), ("one?", "cmp", 1, 0),
+                 ("even?", "parity", 0, 2), ("odd?", "parity", 1, 2)] := by decide
+
+example : polyPred cfgGen Ieee.ieee "neg?" (.s64 (-5)) = .ok (.bool true) ∧ polyPred cfgGen Ieee.ieee "odd?" (.u64 18446744073709551615) = .ok (.bool true) ∧
+    polyPred cfgGen Ieee.ieee "pos?" (.num 0x7ff0000000000000) = .ok (.bool true) := by
+  refine ⟨by decide +kernel, by decide +kernel, by decide +kernel⟩
 
 /-- the primitive comparators do NOT order an int/s64 against an int/u64 (or against a number) by value: `janet_compare`
     orders values of different types by type, two abstract types by the address of their descriptors — every s64 is on
